@@ -135,7 +135,8 @@ func checkC34(c *Ctx, r *Report) {
 	r.Check(okStop, r2, send, "stop on exhausted backoff", nil, "Stop edge leaves the loop", "the loop does not stop retrying when the backoff is exhausted")
 	const fAcc = pkgHTTP + ".sendOptions.acceptedCodes"
 	okAcc := false
-	instrsOf(send, func(in ssa.Instruction) {
+	// in Send, or in the retry predicate it was extracted into
+	instrsDeep(send, 1, func(_ *ssa.Function, in ssa.Instruction) {
 		cl, isC := in.(*ssa.Call)
 		if !isC || calleeName(cl.Common()) != pkgHTTP+".isRetryable" {
 			return
@@ -208,6 +209,7 @@ func checkC35(c *Ctx, r *Report) {
 			continue
 		}
 		cl := mc.Fn.(*ssa.Function)
+		n += c35AttemptHelpers(c, r, r1, pkg, cl, mc)
 		// does the closure pass a writer to the client?
 		for _, call := range callsIn(cl) {
 			cc := call.Instr.Common()
